@@ -2,6 +2,7 @@
 import ast
 
 from .. import astutil as A
+from ..loader import AnalysisIncomplete
 from ..norm import canon, parse, dotted, rat, equal, short_fn, NormError, Rat, Poly, default_atom
 from .C10 import classify
 
@@ -226,19 +227,90 @@ def check_fcm(ctx):
         ctx.check(R, lam[0], "kernel K-variance rule = sigma(P, e)^2 of the distribution", agree, "kernel uses `%s`" % A.unparse(lam[0].value)[:80], key="kernel-agree")
 
 
+def _mro(m, cname):
+    """in-package linearisation by single inheritance: [class, base, base of base ...] (ClassDef nodes), plus the first external base name"""
+    out, ext = [], None
+    seen = set()
+    while cname in m.classes and cname not in seen:
+        seen.add(cname)
+        cd = m.classes[cname]
+        out.append(cd)
+        nxt = None
+        for b_ in cd.bases:
+            bn = dotted(b_) or ""
+            if bn.split(".")[-1] in m.classes:
+                nxt = bn.split(".")[-1]
+                break
+            ext = ext or bn
+        if nxt is None:
+            break
+        cname = nxt
+    return out, ext
+
+
+def _mangle(attr, owner):
+    return "_%s%s" % (owner.lstrip("_"), attr) if attr.startswith("__") and not attr.endswith("__") else attr
+
+
+def _class_value(mro, attr, accessed_in):
+    """value expression of `cls.<attr>` looked up on the MRO, with Python's private-name mangling (`__x` written in class B means `_B__x`)"""
+    want = _mangle(attr, accessed_in)
+    for cd in mro:
+        for st in cd.body:
+            if isinstance(st, ast.Assign) and len(st.targets) == 1 and isinstance(st.targets[0], ast.Name) and _mangle(st.targets[0].id, cd.name) == want:
+                return st.value
+    return None
+
+
+def _kipping_params(ctx, m, cname):
+    """(alpha, beta, description) the class hands to Beta.dist, following inherited `dist` methods and class attributes"""
+    mro, ext = _mro(m, cname)
+    for cd in mro:
+        dist = [f for f in cd.body if isinstance(f, ast.FunctionDef) and f.name == "dist"]
+        if not dist:
+            continue
+        fn = dist[0]
+        c = [x for x in A.calls_in(fn) if isinstance(x.func, ast.Attribute) and x.func.attr == "dist"]
+        if len(c) != 1:
+            return None, None, "dist of %s does not call the base dist once" % cd.name, ext
+        vals = []
+        for kw in ("alpha", "beta"):
+            e = A.get_arg(c[0], None, kw)
+            v = None
+            if e is not None:
+                e = A.inline_temporaries(e, A.enclosing_stmt(c[0]), fn)
+                if isinstance(e, ast.Name):
+                    src = A.reaching_binding_stmt(e.id, A.enclosing_stmt(c[0]))
+                    if src is not None and isinstance(src.targets[0], ast.Tuple) and isinstance(src.value, ast.Attribute) and canon(src.value.value) in ("cls", "self"):
+                        pos = [i for i, t in enumerate(src.targets[0].elts) if isinstance(t, ast.Name) and t.id == e.id]
+                        tv = _class_value(mro, src.value.attr, cd.name)
+                        if pos and isinstance(tv, ast.Tuple) and pos[0] < len(tv.elts):
+                            e = tv.elts[pos[0]]
+                if isinstance(e, ast.Attribute) and canon(e.value) in ("cls", "self"):
+                    e = _class_value(mro, e.attr, cd.name) or e
+                if isinstance(e, ast.Subscript) and isinstance(e.value, ast.Attribute) and canon(e.value.value) in ("cls", "self") and isinstance(A.const_value(e.slice), int):
+                    tv = _class_value(mro, e.value.attr, cd.name)
+                    if isinstance(tv, ast.Tuple) and A.const_value(e.slice) < len(tv.elts):
+                        e = tv.elts[A.const_value(e.slice)]
+                v = A.const_value(e)
+            vals.append(v)
+        return vals[0], vals[1], "dist defined in %s" % cd.name, ext
+    return None, None, "no dist method", ext
+
+
 def check_kipping(ctx):
     R = "C09-KIP"
-    ctx.rule(R, "Kipping (2013) Beta parameters: short (0.697, 3.27), long (1.12, 3.09), global (0.867, 3.03) - these numbers are the documented density.")
+    ctx.rule(R, "Kipping (2013) Beta parameters: short (0.697, 3.27), long (1.12, 3.09), global (0.867, 3.03) - these numbers are the documented density; decided on the parameters "
+                "each class effectively hands to Beta.dist (inherited `dist` methods and class attributes are followed with Python's name-mangling rule for `__x`).")
     table = {"Kipping13Short": (0.697, 3.27), "Kipping13Long": (1.12, 3.09), "Kipping13Global": (0.867, 3.03)}
+    m = ctx.prog.module(DI)
     for cls, (a, b) in table.items():
-        fn = ctx.prog.func(DI, cls + ".dist", R)
-        c = [x for x in A.calls_in(fn) if isinstance(x.func, ast.Attribute) and x.func.attr == "dist"]
-        ok = len(c) == 1 and A.const_value(A.get_arg(c[0], None, "alpha")) == a and A.const_value(A.get_arg(c[0], None, "beta")) == b
-        ctx.check(R, fn, "%s = Beta(%s, %s)" % (cls, a, b), ok, "Beta(%s, %s)" % (A.unparse(A.get_arg(c[0], None, "alpha")) if c else None, A.unparse(A.get_arg(c[0], None, "beta")) if c else None), key=cls)
-        m = ctx.prog.module(DI)
-        cd = m.classes.get(cls)
-        base = [canon(b_) for b_ in cd.bases] if cd else []
-        ctx.check(R, cd or fn, "%s is a pm.Beta" % cls, base == ["pm.Beta"], "bases %s" % base, key=cls + ":base", nontrivial=False)
+        if cls not in m.classes:
+            raise AnalysisIncomplete(R, cls, "class not found")
+        ga, gb, how, ext = _kipping_params(ctx, m, cls)
+        cd = m.classes[cls]
+        ctx.check(R, cd, "%s = Beta(%s, %s)" % (cls, a, b), ga == a and gb == b, "Beta(%s, %s) (%s)" % (ga, gb, how), key=cls)
+        ctx.check(R, cd, "%s is a pm.Beta" % cls, ext == "pm.Beta", "external base %s" % ext, key=cls + ":base", nontrivial=False)
 
 
 def check_wire(ctx):
